@@ -106,8 +106,8 @@ func hasProtocolError(c Case) bool {
 		// a grpc-status in headers, trailers or (gRPC-Web) a body that may hold a
 		// trailer frame is a protocol-level status and may take precedence
 		for _, kv := range append(append([]prog.KV(nil), c.Header...), c.Trailer...) {
-			if strings.EqualFold(kv.K, "Grpc-Status") {
-				return true
+			if strings.EqualFold(kv.K, "Grpc-Status") && strings.Trim(kv.V, "0") != "" {
+				return true // (a status of zero is not an error: the HTTP status decides)
 			}
 		}
 		return c.Protocol == "grpcweb" && len(c.Body) > 0
@@ -185,6 +185,10 @@ func check(tt *testing.T, c Case) (pbt.Info, error) {
 	}
 	if !res.CleanEnd && res.Err == nil {
 		return info, fmt.Errorf("%s: neither success nor error", where)
+	}
+	// a non-200 response is never a success, whatever else it carries
+	if c.Status != 200 && res.CleanEnd {
+		return info, fmt.Errorf("%s: non-200 response but the call succeeded", where)
 	}
 	// status-derived code
 	if c.Status != 200 && !hasProtocolError(c) {
@@ -342,6 +346,10 @@ func gen(t *rapid.T) Case {
 			}
 			if where != "trailer" {
 				c.Header = apply(c.Header)
+			}
+			if rapid.IntRange(0, 2).Draw(t, "non200") == 0 {
+				// a gRPC status next to an HTTP error status
+				c.Status = rapid.SampledFrom([]int{204, 400, 401, 403, 404, 429, 500, 502, 503, 504}).Draw(t, "gstatusHTTP")
 			}
 		}
 	case "webtrailer":
